@@ -29,7 +29,8 @@ Clauses (for every well-formed payload p; t = template.deserialize(p))
   normalize-agree   normalize_object_update_compressed_data(p) equals the normalisation sentence of the code's own
                     comments applied to t by a plain-Python reference (absent section -> default value; PSBlockNew wins
                     over PSBlock; missing parent = 0; null OwnerID dropped; ID -> LocalID; Flags dropped)
-  network-agree     normalize_object_update_compressed(block, handle) == the above + UpdateFlags + RegionHandle
+  network-agree     generated payloads (A, B): normalize_object_update_compressed(block, handle) == the above + UpdateFlags
+                    + RegionHandle (the wrapper adds nothing payload-dependent, so it is not repeated per mutation)
   cache-bytes       D: lookup_object_data(local_id, crc) returns exactly p (so the cache path normalises the same bytes)
 
 PCode values outside the enum (reachable only through byte substitution at offset 20): the fast reader raises
@@ -45,7 +46,6 @@ Deviations from DESIGN, with reasons
 from __future__ import annotations
 
 import dataclasses
-import enum
 import os
 import re
 import struct
@@ -361,8 +361,12 @@ def flag_cover(required: Optional[int], thorough: bool) -> List[int]:
 
 
 # ------------------------------------------------------------------------------------------------------ comparison
+_PROXY = lazy_object_proxy.Proxy
+
+
 def force(x: Any) -> Any:
-    if isinstance(x, lazy_object_proxy.Proxy):
+    """Only top-level members are ever lazy (TextureEntry); nested values are plain."""
+    if type(x) is _PROXY:
         return x.__wrapped__
     return x
 
@@ -372,8 +376,8 @@ def fbits(x: float) -> bytes:
 
 
 def same(a: Any, b: Any, path: str = "") -> Optional[str]:
-    """None if equal under the property's notion of equality, else a short description of the first difference."""
-    a, b = force(a), force(b)
+    """None if equal under the property's notion of equality, else a short description of the first difference.
+    (Lazy members are forced by the callers: they only occur at the top level.)"""
     if a is None or b is None:
         return None if a is None and b is None else f"{path}: {a!r} != {b!r}"
     if isinstance(a, bool) or isinstance(b, bool):
@@ -474,7 +478,7 @@ def same_norm(got: Any, exp: Any, path: str) -> Optional[str]:
     if exp is EMPTY:
         g = force(got)
         return None if isinstance(g, (str, bytes)) and len(g) == 0 else f"{path}: {g!r} is not an empty string"
-    return same(got, exp, path)
+    return same(force(got), force(exp), path)
 
 
 # ---------------------------------------------------------------------------------------------------------- oracle
@@ -561,6 +565,8 @@ def judge(part: Part, p: bytes, origin: str, site_hint: str, witness: dict, tops
                 if r:
                     part.violation("normalize-agree", f"normalize.{k}", witness, f"impl vs reference(template result): {r}")
                     bad = True
+        if not generated:
+            return "violation" if bad else "ok"
         try:
             blk = Block("ObjectData", UpdateFlags=UPDATE_FLAGS, Data=p)
             Message("ObjectUpdateCompressed", Block("RegionData", RegionHandle=REGION_HANDLE, TimeDilation=65535), blk)
@@ -571,7 +577,7 @@ def judge(part: Part, p: bytes, origin: str, site_hint: str, witness: dict, tops
                 bad = True
             for k, ev in exp2.items():
                 if k in nn:
-                    r = same(nn[k], ev, k)
+                    r = same(force(nn[k]), force(ev), k)
                     if r:
                         part.violation("network-agree", f"network.{k}", witness, r)
                         bad = True
@@ -665,6 +671,12 @@ def _work_mutate(item: Tuple[int, int, int]):
     ri, lo, hi = item
     part = Part()
     name, p, tops = _REPS[ri]
+    if lo == 0:  # the representative itself, with the template clauses asserted
+        w = {"kind": "payload", "origin": "generated", "hex": p.hex(), "case": f"C rep/{name} unmodified", "tops": tops}
+        res = judge(part, p, "generated", "representative", w, tops)
+        part.count("C_representatives")
+        part.outcome(("R", ri, res))
+        part.mark_nontrivial(("R", ri))
     for off in range(lo, hi):
         m = member_at(tops, off)
         for v in substitutions(p[off], _THOROUGH):
@@ -764,7 +776,7 @@ def check_cache_path(run_or_part, reps) -> None:
         except Exception:
             continue  # judged in C (every representative is also evaluated there)
         for k in b:
-            r = same(a.get(k), b[k], k)
+            r = same(force(a.get(k)), force(b[k]), k)
             if r:
                 run_or_part.violation("cache-bytes", f"cache-normalize.{k}", w, r)
         run_or_part.mark_nontrivial(("D", name))
